@@ -205,6 +205,7 @@ def register(R):
     )
     register_legacy_front(R)
     register_legacy_io_thread(R)
+    register_legacy_parts_thread(R)
 
 
 def legacy_const(eng, name):
@@ -679,6 +680,53 @@ def register_legacy_io_thread(R):
     R.contract(f'{MPD}._perform_io_writes', props=['C02', 'C03', 'C06'], params=dict(filename=ExtT('str')),
                checks=io_checks, raises={'Exception': io_raises, 'OSError': io_raises}, raise_when={'Exception': lambda c: None},
                loops={0: LoopSpec(invariant=lambda l: {}, iteration_checks=io_iteration)})
+
+
+def register_legacy_parts_thread(R):
+    """MultipartDownloader._download_file_as_future: plans ceil(size / chunksize) ranges, maps _download_range over all of them
+    with the caller's arguments, and ALWAYS queues the shutdown sentinel for the IO thread afterwards (also when a range failed)."""
+    from pyvc.values import to_z3_bool
+
+    def puts(evs):
+        return [e for e in evs if e.kind == 'ext' and e.name == 'ioqueue.put']
+
+    def plan_ok(c):
+        mp = [e for e in flat(c.trace) if e.kind == 'ext' and e.name == 'legacy_executor.map']
+        out = {'one_map_over_the_ranges': (B(len(mp) == 1), ['C14', 'C02'])}
+        if len(mp) == 1:
+            fn, it = mp[0].args[0], mp[0].args[1]
+            okfn = isinstance(fn, PartialV) and getattr(getattr(fn.func, 'finfo', None), 'name', None) == '_download_range' and len(fn.args) == 7
+            out['every_range_is_downloaded_with_the_callers_arguments'] = (B(bool(
+                okfn and fn.args[0] is c.a_bucket and fn.args[1] is c.a_key and fn.args[2] is c.a_filename
+                and fn.args[5] is c.a_extra_args and fn.args[6] is c.a_callback)), ['C15', 'C02'])
+            if okfn and isinstance(it, Ref) and c.new.obj(it).kind == 'range':
+                lo0, n = c.new.obj(it).meta['lo'], c.new.obj(it).meta['hi']
+                ps = c.old.f(c.oldf('_config'), 'multipart_chunksize')
+                from pyvc.values import to_int_term
+                out['parts_are_0_to_ceil_size_over_chunksize'] = (z3.And(
+                    to_int_term(lo0) == 0, is_ceil_div(to_int_term(n), c.a_object_size, ps),
+                    to_int_term(fn.args[3]) == ps, to_int_term(fn.args[4]) == to_int_term(n)), ['C14', 'C02'])
+            else:
+                out['parts_are_0_to_ceil_size_over_chunksize'] = (B(False), ['C14', 'C02'])
+        return out
+
+    def sentinel_last(c):
+        tr = flat(c.trace)
+        pu = puts(tr)
+        sentinel = c.engine.module_global(c.engine.repo.modules['s3transfer'], 'SHUTDOWN_SENTINEL', c.new.st)
+        okk = len(pu) == 1 and index_of(tr, pu[0]) == max(index_of(tr, e) for e in tr if e.kind in ('ext', 'call'))
+        return {'io_thread_is_always_told_to_stop_once_everything_was_queued': (
+            z3.And(B(True), to_z3_bool(c.engine.identity(pu[0].args[0], sentinel, c.new.st))) if okk else B(False), ['C04', 'C06', 'C02'])}
+
+    R.contract(
+        f'{MPD}._download_file_as_future', props=['C14', 'C02', 'C15', 'C06'],
+        params=dict(bucket=ExtT('str'), key=ExtT('str'), filename=ExtT('str'), object_size=Int, extra_args=EXTRA, callback=OptT(ExtT('legacy_cb'))),
+        setup=lambda eng, st, args, self_val: (st.assume(args['object_size'] >= 0), st.assume(args['object_size'] < TWO53),
+                                               st.assume(st.obj(st.obj(self_val).fields['_config']).fields['multipart_chunksize'] > 0),
+                                               st.assume(st.obj(st.obj(self_val).fields['_config']).fields['multipart_chunksize'] < TWO53)),
+        checks=lambda c: {**plan_ok(c), **sentinel_last(c)},
+        raises={'Exception': lambda c: {**only_propagates(c), **sentinel_last(c)}}, raise_when={'Exception': lambda c: None},
+    )
 
 
 LEGACY_C06 = [f'{S3T}.download_file', f'{MPD}.download_file']
